@@ -22,7 +22,10 @@ RULE = ("hierarchy IR with COMPARAM-REFs -> XML -> Database.refresh(); per layer
         "{None, each protocol name, Protocol object}; get_value/get_subvalue of every effective instance; all "
         "typed accessors; non-trivial = some looked-up parameter is defined on >=2 layers of the layer's "
         "ancestry or effective with >=2 qualifiers, or its content relies on a specification default; "
-        "distinct = digest of the hierarchy IR")
+        "history stage: 1..3 generated edits (add / remove / change value of a COMPARAM-REF instance on any layer) are "
+        "applied to the loaded object tree, Database.refresh() is called and everything is read again and compared "
+        "with the model of the edited hierarchy (an edit that changes a resolved value of a layer makes the case "
+        "non-trivial as well); distinct = digest of hierarchy IR + edits")
 ASSUMPTIONS = [
     "effective set keyed by (parameter, protocol qualifier), parents applied in increasing inheritance priority, local COMPARAM-REFs last (docstring of _compute_available_commmunication_parameters)",
     "two parents of equal priority that offer different instances for one key: either instance is accepted",
@@ -31,8 +34,10 @@ ASSUMPTIONS = [
     "COMPLEX-VALUEs always list one entry per sub-parameter; one COMPARAM-REF per (parameter, qualifier) and layer",
     "get_can_fd_baudrate is asserted only when there is no CAN receive id (None expected) or when the content of CP_CANFDTxMaxDataLength contains 'CANFD'; contents of CP_CANFDTxMaxDataLength have the form 'TX_DL=<n>...'",
     "ECU-SHARED-DATA layers have no communication parameters and are not queried",
+    "Database.refresh() is the way to make edits of hierarchy_element_raw.comparam_refs effective (as examples/mksomersaultmodifiedpdx.py does for other raw-layer edits); in-memory instances use the parser's representation (empty value = '')",
 ]
-MUST_HIT = ["override-by-child", "qualified-and-generic", "generic-listed-before-specific", "default-simple", "default-sub",
+MUST_HIT = ["refresh-after-edit:value-changed", "refresh-after-edit:descendant-changed",
+            "refresh-after-edit:other-instance-wins", "edit:add", "edit:remove", "edit:set", "override-by-child", "qualified-and-generic", "generic-listed-before-specific", "default-simple", "default-sub",
             "parents-different-priority", "ambiguous-equal-priority", "absent-param", "sub-param-absent",
             "protocol-object-arg", "form:VALUE", "form:SIMPLE", "form:COMPLEX", "inherited-only",
             "acc:get_max_can_payload_size", "acc:get_can_fd_baudrate"] + [f"acc:{a}" for a in cpm.ACCESSORS]
@@ -67,17 +72,14 @@ def _uid(cp):
     return None if d is None else d.text_identifier
 
 
-def evaluate(hier: dict) -> tuple[list, set, bool]:
-    inherit.check_envelope(hier)
+def read_all(hier: dict, db, cls: set) -> tuple[list, bool]:
+    """everything the check reads from a loaded (and possibly edited + refreshed) database, compared with the
+    reference model of `hier` -> (failures, nontrivial)"""
     m = cpm.CPModel(hier)
     im = inherit.Model(hier)
-    cls: set = set()
     nontrivial = False
     fails: list = []
     active = _active_emulations()
-    db, exc = c09._load(hier)
-    if exc is not None:
-        return [_fail("load", f"loading raised {type(exc).__name__}: {exc}", hier, f"load:{type(exc).__name__}")], cls, False
     protos = [l["name"] for l in hier["layers"] if l["type"] == "PROTOCOL"]
     sub = hier["subset"]
     subnames = [s[0] for s in sub["complex"][cpm.COMPLEX_NAME]]
@@ -241,11 +243,146 @@ def evaluate(hier: dict) -> tuple[list, set, bool]:
         if f.bucket() not in seen:
             seen.add(f.bucket())
             uniq.append(f)
-    return uniq, cls, nontrivial
+    return uniq, nontrivial
+
+
+# ---------------------------------------------------------------------------
+# edits of the loaded object tree (history stage)
+# ---------------------------------------------------------------------------
+def apply_edit_ir(hier: dict, edit: dict) -> dict:
+    """the hierarchy IR after the edit (deep copy of the touched layer only)"""
+    h = dict(hier)
+    h["layers"] = []
+    for l in hier["layers"]:
+        if l["name"] != edit["layer"]:
+            h["layers"].append(l)
+            continue
+        l2 = dict(l)
+        cps = [dict(c) for c in l.get("comparams", [])]
+        if edit["op"] == "add":
+            if any(c["param"] == edit["cp"]["param"] and c.get("protocol") == edit["cp"].get("protocol") for c in cps):
+                raise ValueError("edit adds a second COMPARAM-REF for one (parameter, qualifier) of a layer")
+            cps.insert(min(edit.get("pos", len(cps)), len(cps)), dict(edit["cp"]))
+        elif edit["op"] == "remove":
+            assert any(c["uid"] == edit["uid"] for c in cps)
+            cps = [c for c in cps if c["uid"] != edit["uid"]]
+        elif edit["op"] == "set":
+            for c in cps:
+                if c["uid"] == edit["uid"]:
+                    c["value"] = edit["value"]
+        else:
+            raise ValueError(edit["op"])
+        l2["comparams"] = cps
+        h["layers"].append(l2)
+    return h
+
+
+def _mem_value(cp: dict):
+    """the in-memory representation the parser produces for the value of a COMPARAM-REF"""
+    if cp["form"] == "COMPLEX":
+        return ["" if v is None else v for v in cp["value"]]
+    return "" if cp["value"] is None else cp["value"]
+
+
+def apply_edit_db(hier: dict, db, edit: dict) -> None:
+    """the same edit on the loaded object tree (hierarchy_element_raw.comparam_refs of the layer)"""
+    from odxtools.comparaminstance import ComparamInstance
+    from odxtools.description import Description
+    from odxtools.odxlink import DocType, OdxDocFragment, OdxLinkRef
+    raw = db.diag_layers[edit["layer"]].hierarchy_element_raw
+    lst = raw.comparam_refs
+    if edit["op"] == "add":
+        cp = edit["cp"]
+        sub = hier["subset"]["name"]
+        inst = ComparamInstance(
+            value=_mem_value(cp),
+            description=Description(text="<p>d</p>", external_docs=[], text_identifier=cp["uid"]),
+            protocol_snref=cp.get("protocol"), prot_stack_snref=None,
+            spec_ref=OdxLinkRef(f"{sub}.{cp['param']}", [OdxDocFragment(sub, DocType.COMPARAM_SUBSET)]))
+        lst.insert(min(edit.get("pos", len(lst)), len(lst)), inst)
+        return
+    idx = [i for i, c in enumerate(lst) if _uid(c) == edit["uid"]]
+    assert len(idx) == 1, "edit refers to an unknown COMPARAM-REF"
+    if edit["op"] == "remove":
+        del lst[idx[0]]
+    else:
+        ir = next(c for l in hier["layers"] if l["name"] == edit["layer"] for c in l["comparams"] if c["uid"] == edit["uid"])
+        lst[idx[0]].value = _mem_value(dict(ir, value=edit["value"]))
+
+
+def resolved_snapshot(hier: dict) -> dict:
+    """{layer -> {(param, qualifier) -> [(uid, content...)]}} according to the model: what an edit may change"""
+    m = cpm.CPModel(hier)
+    out = {}
+    for l in hier["layers"]:
+        if l["type"] == "ECU-SHARED-DATA":
+            continue
+        d = {}
+        for key, insts in m.effective(l["name"]).items():
+            d[key] = [(i["uid"], tuple(m.subvalue(i, sn) for sn in cpm.SUB_NAMES) if i["param"] == cpm.COMPLEX_NAME
+                       else m.value(i)) for i in insts]
+        out[l["name"]] = d
+    return out
+
+
+def evaluate(hier: dict, edits=None) -> tuple[list, set, bool]:
+    """stage A: load `hier`, read everything; stage B (if edits): apply the edits to the loaded objects,
+    Database.refresh(), read everything again and compare with the model of the edited hierarchy"""
+    inherit.check_envelope(hier)
+    cls: set = set()
+    db, exc = c09._load(hier)
+    if exc is not None:
+        return [_fail("load", f"loading raised {type(exc).__name__}: {exc}", hier, f"load:{type(exc).__name__}")], cls, False
+    fails, nontrivial = read_all(hier, db, cls)
+    if fails or not edits:
+        return fails, cls, nontrivial
+    cur = hier
+    for e in edits:
+        nxt = apply_edit_ir(cur, e)
+        apply_edit_db(cur, db, e)
+        cls.add(f"edit:{e['op']}")
+        cur = nxt
+    changed = resolved_snapshot(hier) != resolved_snapshot(cur)
+    if changed:
+        cls.add("refresh-after-edit:value-changed")
+        before, after = resolved_snapshot(hier), resolved_snapshot(cur)
+        edited = {e["layer"] for e in edits}
+        if any(before[ln] != after[ln] for ln in before if ln not in edited):
+            cls.add("refresh-after-edit:descendant-changed")
+        for ln in before:
+            for key in set(before[ln]) | set(after[ln]):
+                b, a = before[ln].get(key), after[ln].get(key)
+                if b and a and {x[0] for x in b} != {x[0] for x in a}:
+                    cls.add("refresh-after-edit:other-instance-wins")
+    import odxtools.exceptions as oe
+    saved = oe.strict_mode
+    oe.strict_mode = True
+    try:
+        with warnings.catch_warnings():
+            warnings.simplefilter("ignore")
+            try:
+                db.refresh()
+            except Exception as ex:
+                f = _fail("refresh", f"Database.refresh() after the edits raised {type(ex).__name__}: {ex}", hier,
+                          f"refresh:{type(ex).__name__}")
+                f.case = {"hier": core.plain(hier), "edits": core.plain(edits)}
+                return [f], cls, nontrivial
+    finally:
+        oe.strict_mode = saved
+    cls2: set = set()
+    fails2, _ = read_all(cur, db, cls2)
+    cls |= {c for c in cls2 if c.startswith("acc:") or c.startswith("default") or c.startswith("form:")}
+    for f in fails2:
+        f.detail = "after edit + refresh: " + f.detail
+        f.case = {"hier": core.plain(hier), "edits": core.plain(edits)}
+        f.features["stage"] = "after-refresh"
+        f.features["bucket"] = "after-refresh:" + str(f.features.get("bucket"))
+        f.features["edit_ops"] = sorted({e["op"] for e in edits})
+    return fails2, cls, (nontrivial or changed)
 
 
 def replay(case) -> list:
-    return evaluate(case["hier"])[0]
+    return evaluate(case["hier"], case.get("edits"))[0]
 
 
 # ---------------------------------------------------------------------------
@@ -304,6 +441,62 @@ def add_comparams(draw, hier):
             l["comparams"] = list(draw(st.permutations(cps)))
 
 
+def history_strategy():
+    """(hierarchy with placement A, 1..3 edits of COMPARAM-REF instances)"""
+    from hypothesis import strategies as st
+    num = st.integers(0, 0x7FF).map(str)
+
+    @st.composite
+    def build(draw):
+        hier = draw(c09.hier_strategy("bare", comparams=add_comparams))
+        layers = [l["name"] for l in hier["layers"] if l["type"] != "ECU-SHARED-DATA"]
+        if not layers:
+            return {"hier": hier, "edits": []}
+        protos = [l["name"] for l in hier["layers"] if l["type"] == "PROTOCOL"][:2]
+        nsub = len(hier["subset"]["complex"][cpm.COMPLEX_NAME])
+        used = sorted({c["param"] for l in hier["layers"] for c in l.get("comparams", [])})
+
+        def new_value(param):
+            if draw(st.integers(0, 7)) < 2:
+                return [None] * nsub if param == cpm.COMPLEX_NAME else None
+            if param == cpm.COMPLEX_NAME:
+                return [None if draw(st.integers(0, 7)) < 2 else draw(num) for _ in range(nsub)]
+            if param == "CP_CANFDTxMaxDataLength":
+                return draw(st.sampled_from(DL_VALUES))
+            return draw(num)
+
+        cur = hier
+        edits = []
+        for k in range(draw(st.sampled_from([1, 1, 2, 3]))):
+            ln = draw(st.sampled_from(layers))
+            layer = next(l for l in cur["layers"] if l["name"] == ln)
+            have = layer.get("comparams", [])
+            op = draw(st.sampled_from(["add", "add", "remove", "set"]))
+            if op != "add" and not have:
+                op = "add"
+            if op == "add":
+                param = draw(st.sampled_from(used + used + [cpm.COMPLEX_NAME, "CP_Baudrate"]))
+                q = draw(st.sampled_from([None] + protos))
+                clash = next((c for c in have if c["param"] == param and c.get("protocol") == q), None)
+                if clash is not None:
+                    e = {"op": "set", "layer": ln, "uid": clash["uid"], "value": new_value(param)}
+                else:
+                    form = "COMPLEX" if param == cpm.COMPLEX_NAME else draw(st.sampled_from(["SIMPLE", "VALUE"]))
+                    e = {"op": "add", "layer": ln, "pos": draw(st.integers(0, len(have))),
+                         "cp": {"param": param, "protocol": q, "form": form, "value": new_value(param),
+                                "uid": f"{ln}:{param}:{q}:edit{k}"}}
+            elif op == "remove":
+                e = {"op": "remove", "layer": ln, "uid": draw(st.sampled_from([c["uid"] for c in have]))}
+            else:
+                c = draw(st.sampled_from(have))
+                e = {"op": "set", "layer": ln, "uid": c["uid"], "value": new_value(c["param"])}
+            edits.append(e)
+            cur = apply_edit_ir(cur, e)
+        return {"hier": hier, "edits": edits}
+
+    return build()
+
+
 def shards(tier):
     return [("hyp", i) for i in range(16)]
 
@@ -313,9 +506,9 @@ def run_shard(spec, seed, tier):
     res = core.ShardResult()
     kf = known.load(PROPERTY)
 
-    def body(hier):
-        fails, cls, nontrivial = evaluate(hier)
-        res.note({"hier": hier}, nontrivial, cls)
+    def body(case):
+        fails, cls, nontrivial = evaluate(case["hier"], case.get("edits"))
+        res.note(case, nontrivial, cls)
         new = []
         for f in fails:
             k = known.match(kf, f)
@@ -326,7 +519,7 @@ def run_shard(spec, seed, tier):
         return new
 
     n = 400 if tier == "quick" else 3000
-    found = core.hyp_search(c09.hier_strategy("bare", comparams=add_comparams), body, seed, n)
+    found = core.hyp_search(history_strategy(), body, seed, n)
     if found:
         res.failures.extend(found)
     res.stages["hypothesis"] = n
